@@ -35,7 +35,7 @@ def streams(tier, rng, P, only=None, cases=None):
                 txt = "".join(rng.choice(TEXT_CHARS) for _ in range(L))
                 add(n, "%s{%s}" % (n, txt), [], txt)
         elif tt == "Tempo":
-            for v in (range(1, 401) if big else list(range(1, 401, 13)) + [9, 10, 11, 120, 299, 300, 301]): add(n, "%s(%d)" % (n, v), [v])
+            for v in (range(1, 401) if (big or n in ("Tempo", "T")) else list(range(1, 401, 13)) + [9, 10, 11, 120, 151, 299, 300, 301]): add(n, "%s(%d)" % (n, v), [v])
         elif tt == "TimeSignature":
             for a in ([2, 3, 4, 5, 6, 7, 9, 12, 64] if not big else range(2, 65)):
                 for d in (2, 4, 8, 16): add(n, "%s(%d,%d)" % (n, a, d), [a, d])
